@@ -62,9 +62,11 @@ def gen(ctx, kind, big=False):
 def real_obs(ctx, m):
     import femio
     fd = U.fresh(m)
+    U.stage('extract_surface()')
     s_idx, s_pos = G.quiet(fd.extract_surface)
     tri, quad = U.surface_parts(s_idx)
     obs = {'tri': tri, 'quad': quad}
+    U.stage('to_surface()')
     sfd = G.quiet(fd.to_surface)
     obs['surf_nodes'] = [int(i) for i in sfd.nodes.ids]
     obs['surf_node_pos'] = sfd.nodes.data.tolist()
@@ -75,16 +77,20 @@ def real_obs(ctx, m):
     except Exception as e:  # noqa
         obs['normals_error'] = repr(e)
     if set(m['blocks']) <= {'tet', 'tet2'} and len(m['blocks']) == 1:
+        U.stage('extract_surface_fistr()')
         obs['fistr'] = U.rows(G.quiet(fd.extract_surface_fistr))
     path = str(ctx.tmp / 'real.obj')
     if os.path.exists(path):
         os.remove(path)
+    U.stage("write('obj')")
     G.quiet(fd.write, 'obj', path)
     obs['obj_text'] = open(path).read()
+    U.stage("read_files('obj')")
     rd = G.quiet(femio.FEMData.read_files, 'obj', [path])
     obs['obj_read_nodes'] = ([int(i) for i in rd.nodes.ids], rd.nodes.data.tolist())
     obs['obj_read_elems'] = {t: ([int(i) for i in a.ids], U.rows(a.data)) for t, a in rd.elements.items()}
     vols = {}
+    U.stage('calculate_element_volumes()')
     for mode in ('centroid', 'linear'):
         vols[mode] = U.real_volumes(m, mode)
         f2 = U.fresh(m)
@@ -275,9 +281,11 @@ def correspond(ctx, m, obs, case):
 
 def one_case(ctx, m, stream='main'):
     case = U.mesh_case(m)
-    obs = real_obs(ctx, m)
+    key = (tuple(m['nodes']), tuple((t, tuple((e, tuple(c)) for e, c in b)) for t, b in m['blocks'].items()))
+    obs = U.guarded(ctx, case, key, real_obs, ctx, m)
+    if obs is None:
+        return
     n_int = sum(len(G.FACES['tet' if t == 'tet2' else t]) for t, _, _ in U.elem_list(m)) - len(obs['tri']) - len(obs['quad'])
-    key = (tuple(m['nodes']), tuple((t, tuple(map(tuple, map(lambda r: (r[0], tuple(r[1])), b)))) for t, b in m['blocks'].items()))
     ctx.case(key, sample={**G.describe(m), 'surface_tri': len(obs['tri']), 'surface_quad': len(obs['quad']),
                           'interior_face_slots': n_int}, nontrivial=n_int > 0)
     ctx.count('kind:' + m['kind'])
@@ -287,18 +295,17 @@ def one_case(ctx, m, stream='main'):
     ctx.count('types:' + '+'.join(m['blocks']))
     if m.get('n_unref'):
         ctx.count('has-unreferenced-nodes')
-    flags = None
     if ctx.driver is not None:
         flags = correspond(ctx, m, obs, case)
         if flags is not None and not (flags['wf'] and flags['closed_elements'] and flags['mirror_conforming']):
-            ctx.count('stream:outside-hypotheses')
-            ctx.notes.append('generated mesh outside the theorem hypotheses: ' + repr(flags))
-            return
+            # the generator only produces conforming meshes (validated in meshgen): a false hypothesis means the
+            # regenerated tables / the model changed, not that the input is outside the theorem - keep the oracle on
+            ctx.disagree('a theorem hypothesis evaluates to false on a generator-conforming mesh', case, None, flags)
     oracle(ctx, m, obs, case)
 
 
 def run(ctx):
-    n = ctx.n(180, 900) if ctx.driver is not None else ctx.n(300, 1200)
+    n = ctx.n(180, 2500) if ctx.driver is not None else ctx.n(300, 1200)
     for name, obj in C.corpus_cases(PROP):
         try:
             one_case(ctx, G.from_json(obj['input']['mesh'] if 'input' in obj else obj['mesh']))
@@ -316,8 +323,11 @@ def run(ctx):
 def replay(ctx, obj):
     m = G.from_json(obj['input']['mesh'])
     case = U.mesh_case(m)
-    obs = real_obs(ctx, m)
     n0 = len(ctx.failures)
+    obs = U.guarded(ctx, case, 'replay', real_obs, ctx, m)
+    if obs is None:
+        return {'describe': G.describe(m), 'failures': [{'signature': f['signature'], 'what': f['what'], 'observed': f['observed']}
+                                                        for f in ctx.failures[n0:]], 'fails': True}
     oracle(ctx, m, obs, case)
     res = {'describe': G.describe(m), 'surface_tri': obs['tri'][:10], 'surface_quad': obs['quad'][:10],
            'failures': [{'signature': f['signature'], 'what': f['what'], 'observed': f['observed']} for f in ctx.failures[n0:]],
